@@ -449,7 +449,17 @@ def h_islandrow(mods, shape, blank):
 
 
 def islandrow_oracle():
-    """real blind run with island rows on a small noise-free field: every island row against an independent flood fill"""
+    for ic, oc in ((20, 15), (10, 16)):
+        bad, cls, detail = islandrow_oracle_1(ic, oc)
+        if bad:
+            return bad, cls, detail + ' [innerclip %s, outerclip %s]' % (ic, oc)
+    return False, None, None
+
+
+def islandrow_oracle_1(innerclip=20, outerclip=15):
+    """real blind run with island rows on a small noise-free field: every island row against an independent flood fill.
+    An outer clip above the inner clip is clamped to it (as documented in the code): detection and summary use min(inner, outer)"""
+    eff = min(innerclip, outerclip)
     d = tempfile.mkdtemp(prefix='c03i_', dir='/var/tmp')
     try:
         sfm = loader.real('source_finder')
@@ -458,7 +468,7 @@ def islandrow_oracle():
         fn, truth, hdr = make_field(d, 9, seed=3)
         img = fits.getdata(fn)
         f = sfm.SourceFinder(log=logging.getLogger('c03'))
-        out = f.find_sources_in_image(fn, rms=0.05, bkg=0.0, cores=1, innerclip=20, outerclip=15, doislandflux=True)
+        out = f.find_sources_in_image(fn, rms=0.05, bkg=0.0, cores=1, innerclip=innerclip, outerclip=outerclip, doislandflux=True)
         isls = [s_ for s_ in out if isinstance(s_, models.IslandSource)]
         comps = [s_ for s_ in out if isinstance(s_, models.ComponentSource)]
         if len(isls) != 9:
@@ -469,7 +479,7 @@ def islandrow_oracle():
                 return True, 'island-components', 'island %d row says %d components, catalogue has %d' % (I_.island, I_.components, len(mine))
             x0, x1, y0, y1 = [int(v) for v in I_.extent]
             box = img[x0:x1, y0:y1]
-            sel = abs(box) > 15 * 0.05
+            sel = abs(box) > eff * 0.05
             if int(I_.pixels) != int(sel.sum()):
                 return True, 'island-pixels', 'island %d row says %d pixels, %d pixels of its box exceed the flood clip' % (I_.island, I_.pixels, int(sel.sum()))
             if abs(I_.peak_flux - box[sel].max()) > 1e-9 * abs(box[sel].max()):
@@ -477,7 +487,7 @@ def islandrow_oracle():
             if (I_.x_width, I_.y_width) != box.shape:
                 return True, 'island-extent', 'island %d widths %s for a box of shape %s' % (I_.island, (I_.x_width, I_.y_width), box.shape)
             # the flood-fill bounding box of the source equals the extent
-            rr, cc = real_np.where(abs(img) > 15 * 0.05)
+            rr, cc = real_np.where(abs(img) > eff * 0.05)
             near = [(r_, c_) for r_, c_ in zip(rr, cc) if x0 - 3 <= r_ < x1 + 3 and y0 - 3 <= c_ < y1 + 3]
             if near and (min(r_ for r_, _ in near), max(r_ for r_, _ in near) + 1, min(c_ for _, c_ in near), max(c_ for _, c_ in near) + 1) != (x0, x1, y0, y1):
                 return True, 'island-extent', 'island %d extent %s but its pixels span rows %d..%d cols %d..%d' % (I_.island, I_.extent, min(r_ for r_, _ in near), max(r_ for r_, _ in near) + 1, min(c_ for _, c_ in near), max(c_ for _, c_ in near) + 1)
@@ -486,6 +496,50 @@ def islandrow_oracle():
         return True, 'raises-%s' % type(e).__name__, repr(e)[:300]
     finally:
         shutil.rmtree(d, ignore_errors=True)
+
+
+def h_resize_markers(cl, mode):
+    """input catalogues for priorized fitting pass through cluster.resize and their uncertainties are copied into the output
+    when a stage does not fit them: a "not measured" marker (-1) or a positive uncertainty must still be one afterwards"""
+    def h(c):
+        class S:
+            pass
+        s_ = S()
+        s_.ra, s_.dec, s_.a, s_.b, s_.pa = real('ra'), real('dec'), real('a'), real('b'), real('pa')
+        s_.psf_a, s_.psf_b, s_.psf_pa = real('psf_a'), real('psf_b'), real('psf_pa')
+        for v in (s_.a, s_.b, s_.psf_a, s_.psf_b):
+            c.assume(v.e > 0)
+        s_.island, s_.source = 0, 0
+        e_ = real('err_in')
+        c.assume(e_.e > 0)
+        for nm in ERRS:
+            setattr(s_, nm, -1 if mode == 'marker' else e_)
+        ratio = real('ratio')
+        c.assume(ratio.e >= 1)
+        cl.resize([s_], ratio=ratio)
+        tag = 'resize[%s uncertainties]' % ('masked (-1)' if mode == 'marker' else 'positive')
+        for nm in ERRS:
+            v = getattr(s_, nm)
+            c.oblige(tag + ':%s is still -1 or positive and finite' % nm, (z3.Or(core.lift(v) == -1, core.lift(v) > 0)) if isinstance(v, SN) else z3.BoolVal(isinstance(v, (int, float)) and (v == -1 or (v > 0 and v == v and v != float('inf')))), timeout_ms=20000)
+        return dict()
+    return h
+
+
+def resize_markers_oracle():
+    cl = loader.real('cluster')
+    models = loader.real('models')
+    for ratio in (1.5, 3.0, 1.0):
+        s_ = models.ComponentSource()
+        s_.a, s_.b, s_.pa, s_.psf_a, s_.psf_b, s_.psf_pa = 40.0, 30.0, 10.0, 25.0, 20.0, 0.0
+        for nm in ERRS:
+            setattr(s_, nm, -1)
+        out = cl.resize([s_], ratio=ratio)
+        for o in out:
+            for nm in ERRS:
+                v = getattr(o, nm)
+                if not (v == -1 or (v > 0 and real_np.isfinite(v))):
+                    return True, 'marker-rescaled', 'resize(ratio=%s) turned the "not measured" marker %s = -1 into %r (priorized fitting copies it into the output when the shape is not refit)' % (ratio, nm, v)
+    return False, None, None
 
 
 def rows_oracle():
@@ -725,6 +779,19 @@ def run(rep):
     if bad:
         rep.finding('C03/K-rows/%s' % cls, dict(kind='rows'), detail)
     rep.end_kernel()
+    rep.kernel('K-resize-markers', functions=['AegeanTools/cluster.py:resize'], bounds='one source with symbolic sizes and psf sizes, symbolic ratio >= 1; all uncertainties -1, or all positive',
+               stubs=['np.sqrt -> radical'])
+    clm = loader.load_private(['cluster'])['cluster']
+    loader.patch(clm, builtins=False)
+    for mode in ('marker', 'positive'):
+        st, res = explore(h_resize_markers(clm, mode))
+        rep.stats(st)
+        collect(rep, res, 'K-resize-markers', resize_markers_oracle, dict(kind='resize-markers'))
+    bad, cls, detail = resize_markers_oracle()
+    rep.validated_runs(3)
+    if bad:
+        rep.finding('C03/K-resize-markers/%s' % cls, dict(kind='resize-markers'), detail)
+    rep.end_kernel()
     rep.kernel('K-islandrow', functions=[F + ':SourceFinder.result_to_components'], bounds='islands 1x2, 2x2 (thorough: 2x3 with one blank pixel) of symbolic pixels of any sign, symbolic noise and flood clip, two components',
                stubs=['as K-rows; MarchingSquares -> empty contour, erf -> symbol'], outside=['contour, angular size, area, eta of the island row'])
     idone = False
@@ -774,6 +841,8 @@ def replay(w):
         bad, cls, detail = normalise_oracle(wit.get('values') or {})
     elif wit.get('kind') == 'rows':
         bad, cls, detail = rows_oracle()
+    elif wit.get('kind') == 'resize-markers':
+        bad, cls, detail = resize_markers_oracle()
     elif wit.get('kind') == 'islandrow':
         bad, cls, detail = islandrow_oracle()
     elif wit.get('kind') in ('dms', 'hms'):
